@@ -72,6 +72,59 @@ def run_lines(h, lines, timeout=1500):
     return replies[:len(lines)]
 
 
+def replay_of(c, r):
+    d = {'klass': c['klass'], 'options': c['opts'], 'generate_mode': c['gen'], 'harness_reply': r}
+    if c['kind'] == 'buf': d['schema_hex'] = hx(c['data']); d['schema_text'] = c['data'].decode('utf-8', 'replace')[:4000]; d['name'] = c.get('name', 'schema')
+    else: d['files'] = {k: (v if isinstance(v, str) else v.decode('utf-8', 'replace')) for k, v in c['files'].items()}; d['root'] = os.path.basename(c['path'])
+    return d
+
+
+def judge(ctx, c, r):
+    """the clauses of the property statement on one harness reply; returns +1 accepted, -1 rejected, 0 not evaluated"""
+    kl = c['klass']
+    ctx.count(repr((c['opts'], c['gen'], c.get('data'), c.get('path'))), klass=kl.split(':')[0])
+    base = kl.split(':')[0]
+    if r.startswith('CRASH') or r == 'HANG' or not r.startswith('R '):
+        what = 'hang (alarm)' if 'HANG' in r else 'crash / sanitizer report'
+        m = re.search(r'(AddressSanitizer: [\w-]+|runtime error: [^_]{0,60}|LeakSanitizer[^ ]*)', r)
+        site = re.search(r'#\d+ 0x[0-9a-f]+ in (\w+) ', r)
+        am = re.search(r'(\w+\.[ch]):(\d+): [^:]*: Assertion', r)
+        if am: key = 'assert:%s:%s' % (am.group(1), am.group(2)); what = 'assertion failure (abort in builds without NDEBUG)'
+        else: key = 'crash:%s:%s' % (re.sub(r'\s+', '_', re.sub(r"0x[0-9a-f]+.*|'.*", '', m.group(1)).strip()) if m else ('hang' if 'HANG' in r else 'abort'), site.group(1) if site else '?')
+        ctx.violation(key, 'schema compiler %s on %s input: %s' % (what, kl, r[:300]), replay_of(c, r))
+        return 0
+    f = r.split(' ', 7)
+    prc, nd, grc, nfiles, sout, leak = f[1], int(f[2]), f[3], int(f[4]), int(f[5]), int(f[6])
+    if prc == 'noctx': return 0
+    prc = int(prc)
+    if leak:
+        site = re.search(r'LEAKSITE=(\S+)', r)
+        ctx.violation('leak:%s' % (site.group(1) if site else base), 'memory still allocated after flatcc_destroy_context (%s input, parse rc %d, options %s), allocated in %s' % (
+            kl, prc, c['opts'].split(',inpath')[0], site.group(1) if site else '?'), replay_of(c, r))
+    if prc == 0 and nd > 0:
+        ctx.violation('success-with-diagnostic:%s' % base, 'parse returned 0 although %d diagnostic(s) were reported: %s' % (nd, f[7][:120]), replay_of(c, r))
+    if prc != 0 and nd == 0:
+        ctx.violation('failure-without-diagnostic:%s' % base, 'parse returned %d without reporting any diagnostic' % prc, replay_of(c, r))
+    if prc != 0 and grc != 'n':
+        if int(grc) == 0 or nfiles > 0 or sout > 0:
+            what = 'schema output' if 'bgen_bfbs=1' in c['opts'] else 'common files' if 'common' in c['opts'] else 'output'
+            cause = 'size-limit' if 'exceeds' in f[7] else 'include' if ('include' in f[7] or c['kind'] == 'file') else 'other'
+            ctx.violation('generate-after-failed-parse:%s' % cause,
+                          'after a failed parse (rc %d, "%s") flatcc_generate_files returned %s and wrote %d file(s), %d stdout bytes (%s)' % (
+                              prc, f[7][:80], grc, nfiles, sout, what), replay_of(c, r))
+    if c['expect'] == 'accept' and prc != 0:
+        ctx.violation('valid-rejected:%s' % base, 'a valid schema (%s) was rejected: %s' % (kl, f[7][:160]), replay_of(c, r))
+    if c['expect'] == 'reject' and prc == 0:
+        ctx.violation('invalid-accepted:%s' % kl, 'a schema violating rule `%s` was accepted' % kl, replay_of(c, r))
+    if c['expect'] == 'accept' and prc == 0 and grc != 'n' and int(grc) != 0:
+        ctx.violation('generate-failed:%s' % base, 'generation failed (rc %s) for an accepted schema with options %s' % (grc, c['opts']), replay_of(c, r))
+    if c['expect'] == 'accept' and prc == 0 and grc != 'n' and int(grc) == 0 and c['opts'] != '-' and not c.get('nogen') and nfiles == 0 and sout == 0 \
+            and 'gen_outfile' not in c['opts']:
+        ctx.violation('no-output:%s' % base, 'generation reported success but wrote nothing (options %s)' % c['opts'], replay_of(c, r))
+
+    return 1 if prc == 0 else -1
+
+
 def run(ctx):
     rng = ctx.rng
     cons = U.config_consts(ctx)
@@ -88,6 +141,29 @@ def run(ctx):
                  incs=['-I' + os.path.join(lib.ROOT, 'harness')])
     flatcc = ctx.flatcc()
     T = ctx.thorough
+    if ctx.replay_in:
+        import json
+        rp = json.load(open(ctx.replay_in))
+        d = os.path.join(ctx.bdir, 'replay'); od = os.path.join(d, 'out'); os.makedirs(od, exist_ok=True)
+        opts = ','.join(o for o in rp['options'].split(',') if not o.startswith('inpath=')) or '-'
+        if 'schema_hex' in rp:
+            c = {'klass': rp['klass'], 'kind': 'buf', 'opts': opts, 'gen': rp['generate_mode'], 'name': rp.get('name', 'schema'),
+                 'data': bytes.fromhex(rp['schema_hex']) if rp['schema_hex'] != '-' else b'', 'expect': None}
+            line = 'buf %s %d %s %s %s' % (opts, c['gen'], od, c['name'], hx(c['data']))
+        else:
+            for n, t in rp['files'].items():
+                p = os.path.join(d, n); os.makedirs(os.path.dirname(p), exist_ok=True); open(p, 'wb').write(t.encode('utf-8', 'surrogateescape'))
+            o2 = (opts + ',' if opts != '-' else '') + 'inpath=' + d
+            c = {'klass': rp['klass'], 'kind': 'file', 'opts': o2, 'gen': rp['generate_mode'], 'path': os.path.join(d, rp['root']), 'files': rp['files'], 'expect': None}
+            line = 'file %s %d %s %s' % (o2, c['gen'], od, c['path'])
+        if rp['klass'].startswith('invalid_rule'): c['expect'] = 'reject'
+        if rp['klass'].startswith(('valid_ast', 'options_valid')): c['expect'] = 'accept'
+        h = lib.Harness(exe, env={'ASAN_OPTIONS': 'detect_leaks=1:abort_on_error=0:allocator_may_return_null=1', 'UBSAN_OPTIONS': 'print_stacktrace=1'})
+        r = run_lines(h, [line])[0]
+        ctx.log('harness reply:', r[:600])
+        judge(ctx, c, r)
+        ctx.finish_args = dict(rule='replay of one recorded input', explanation='replay')
+        return
 
     cases = []    # dict(klass, line parts, expect: 'accept'|'reject'|None, replay)
     incroot = os.path.join(ctx.bdir, 'inc'); os.makedirs(incroot, exist_ok=True)
@@ -181,6 +257,9 @@ def run(ctx):
         'id_dup_union_holes': 'table X { a:int; }\nunion U { X }\ntable T { a:U (id:1); b:U (id:5); c:int (id:5); d:int (id:5); e:int (id:5); }\n',
         'exp_at_end': 'table T { a:float = 50E', 'hexexp_at_end': 'table T { a:float = 0x1p', 'exp_only': '50E', 'root_type_at_end': 'table T { a:int; }\nroot_type',
         'enum_no_type_in_struct': 'enum E { A, B }\nstruct S { e:E; x:int; }\n', 'dup_field': 'table T { a:int; a:int; b:string; }\n',
+        'id_skipped_fields': 'table T { a:int (id:0); b:string = 1 (id:1); c:string = 1 (id:2); d:int (id:3); }\n',
+        'rpc_scalar_request': 'table T { a:int; }\nrpc_service S { M(long):T; }\n', 'rpc_string_response': 'table T { a:int; }\nrpc_service S { M(T):string; }\n',
+        'rpc_vector_request': 'table T { a:int; }\nrpc_service S { M([T]):T; N([int]):T; O(T):[string]; }\n',
         'empty': '', 'only_ws': ' \n\t ', 'bom': '\xef\xbb\xbftable T { a:int; }\n',
     }
     for k, t in stress.items():
@@ -243,57 +322,12 @@ def run(ctx):
     ctx.log('%d cases in %d histories' % (len(cases), nproc))
     res = U.pmap(runchunk, list(enumerate(chunks)), n=nproc)
 
-    def replay_of(c, r):
-        d = {'klass': c['klass'], 'options': c['opts'], 'generate_mode': c['gen'], 'harness_reply': r}
-        if c['kind'] == 'buf': d['schema_hex'] = hx(c['data']); d['schema_text'] = c['data'].decode('utf-8', 'replace')[:4000]
-        else: d['files'] = {k: (v if isinstance(v, str) else v.decode('utf-8', 'replace')) for k, v in c['files'].items()}; d['root'] = os.path.basename(c['path'])
-        return d
-
     nacc = nrej = 0
     for ch, rs in zip(chunks, res):
         for c, r in zip(ch, rs):
-            kl = c['klass']
-            ctx.count(repr((c['opts'], c['gen'], c.get('data'), c.get('path'))), klass=kl.split(':')[0])
-            base = kl.split(':')[0]
-            if r.startswith('CRASH') or r == 'HANG' or not r.startswith('R '):
-                what = 'hang (alarm)' if 'HANG' in r else 'crash / sanitizer report'
-                m = re.search(r'(AddressSanitizer: [\w-]+|runtime error: [^_]{0,60}|LeakSanitizer[^ ]*)', r)
-                site = re.search(r'#\d+ 0x[0-9a-f]+ in (\w+) ', r)
-                am = re.search(r'(\w+\.[ch]):(\d+): [^:]*: Assertion', r)
-                if am: key = 'assert:%s:%s' % (am.group(1), am.group(2)); what = 'assertion failure (abort in builds without NDEBUG)'
-                else: key = 'crash:%s:%s' % (re.sub(r'\s+', '_', m.group(1)) if m else ('hang' if 'HANG' in r else 'abort'), site.group(1) if site else '?')
-                ctx.violation(key, 'schema compiler %s on %s input: %s' % (what, kl, r[:300]), replay_of(c, r))
-                continue
-            f = r.split(' ', 7)
-            prc, nd, grc, nfiles, sout, leak = f[1], int(f[2]), f[3], int(f[4]), int(f[5]), int(f[6])
-            if prc == 'noctx': continue
-            prc = int(prc)
-            if prc == 0: nacc += 1
-            else: nrej += 1
-            if leak:
-                site = re.search(r'LEAKSITE=(\S+)', r)
-                ctx.violation('leak:%s' % (site.group(1) if site else base), 'memory still allocated after flatcc_destroy_context (%s input, parse rc %d, options %s), allocated in %s' % (
-                    kl, prc, c['opts'].split(',inpath')[0], site.group(1) if site else '?'), replay_of(c, r))
-            if prc == 0 and nd > 0:
-                ctx.violation('success-with-diagnostic:%s' % base, 'parse returned 0 although %d diagnostic(s) were reported: %s' % (nd, f[7][:120]), replay_of(c, r))
-            if prc != 0 and nd == 0:
-                ctx.violation('failure-without-diagnostic:%s' % base, 'parse returned %d without reporting any diagnostic' % prc, replay_of(c, r))
-            if prc != 0 and grc != 'n':
-                if int(grc) == 0 or nfiles > 0 or sout > 0:
-                    what = 'schema output' if 'bgen_bfbs=1' in c['opts'] else 'common files' if 'common' in c['opts'] else 'output'
-                    cause = 'include' if 'include' in f[7] else 'size-limit' if 'exceeds' in f[7] else 'other'
-                    ctx.violation('generate-after-failed-parse:%s' % cause,
-                                  'after a failed parse (rc %d, "%s") flatcc_generate_files returned %s and wrote %d file(s), %d stdout bytes (%s)' % (
-                                      prc, f[7][:80], grc, nfiles, sout, what), replay_of(c, r))
-            if c['expect'] == 'accept' and prc != 0:
-                ctx.violation('valid-rejected:%s' % base, 'a valid schema (%s) was rejected: %s' % (kl, f[7][:160]), replay_of(c, r))
-            if c['expect'] == 'reject' and prc == 0:
-                ctx.violation('invalid-accepted:%s' % kl, 'a schema violating rule `%s` was accepted' % kl, replay_of(c, r))
-            if c['expect'] == 'accept' and prc == 0 and grc != 'n' and int(grc) != 0:
-                ctx.violation('generate-failed:%s' % base, 'generation failed (rc %s) for an accepted schema with options %s' % (grc, c['opts']), replay_of(c, r))
-            if c['expect'] == 'accept' and prc == 0 and grc != 'n' and int(grc) == 0 and c['opts'] != '-' and not c.get('nogen') and nfiles == 0 and sout == 0 \
-                    and 'gen_outfile' not in c['opts']:
-                ctx.violation('no-output:%s' % base, 'generation reported success but wrote nothing (options %s)' % c['opts'], replay_of(c, r))
+            v = judge(ctx, c, r)
+            if v > 0: nacc += 1
+            elif v < 0: nrej += 1
     ctx.cov['accepted'] = nacc; ctx.cov['rejected'] = nrej
     if UB_NOTES:
         ctx.cov['arithmetic_ub_sites'] = dict(UB_NOTES)
